@@ -935,27 +935,37 @@ Section Template.
   Variable ctxmap : text -> text.
   Variable raw_dates default_to_self url_encode : bool.
   Variable printable : N -> bool.
+  Variable isln : N -> bool.
+  Variable lower_rune : N -> N.
 
-  Let mseg := migrate_seg ctxmap raw_dates default_to_self url_encode printable.
-  Let mtpl := migrate_template ctxmap raw_dates default_to_self url_encode printable.
+  Let mseg := migrate_seg ctxmap raw_dates default_to_self url_encode printable isln lower_rune.
+  Let mtpl := migrate_template ctxmap raw_dates default_to_self url_encode printable isln lower_rune.
+  Let sep := separate_from isln lower_rune.
+
+  (* every token paired with the text of the body token that follows it (empty if none) *)
+  Fixpoint with_following (segs : list seg) : list (seg * text) :=
+    match segs with
+    | [] => []
+    | s :: r => (s, following_of r) :: with_following r
+    end.
 
   (* the output is the concatenation of the per-token outputs, a body token contributes exactly itself and
      never an error *)
   Theorem body_unchanged : forall segs,
-    fst (mtpl segs) = concat (map (fun s => fst (mseg s)) segs)
-    /\ snd (mtpl segs) = existsb (fun s => snd (mseg s)) segs
-    /\ forall t, mseg (SBody t) = (t, false).
+    fst (mtpl segs) = concat (map (fun p => fst (mseg (fst p) (snd p))) (with_following segs))
+    /\ snd (mtpl segs) = existsb (fun p => snd (mseg (fst p) (snd p))) (with_following segs)
+    /\ forall t f, mseg (SBody t) f = (t, false).
   Proof.
     intros segs. split; [|split].
     - induction segs as [|s r IH]; [reflexivity|].
-      unfold mtpl in *. cbn [migrate_template map concat].
-      fold mseg. destruct (mseg s) as [o e]. 
-      destruct (migrate_template ctxmap raw_dates default_to_self url_encode printable r) as [o' e'].
+      unfold mtpl in *. cbn [migrate_template with_following map concat fst snd].
+      fold mseg. destruct (mseg s (following_of r)) as [o e].
+      destruct (migrate_template ctxmap raw_dates default_to_self url_encode printable isln lower_rune r) as [o' e'].
       cbn [fst] in *. rewrite IH. reflexivity.
     - induction segs as [|s r IH]; [reflexivity|].
-      unfold mtpl in *. cbn [migrate_template existsb].
-      fold mseg. destruct (mseg s) as [o e].
-      destruct (migrate_template ctxmap raw_dates default_to_self url_encode printable r) as [o' e'].
+      unfold mtpl in *. cbn [migrate_template with_following existsb fst snd].
+      fold mseg. destruct (mseg s (following_of r)) as [o e].
+      destruct (migrate_template ctxmap raw_dates default_to_self url_encode printable isln lower_rune r) as [o' e'].
       cbn [snd] in *. rewrite IH. reflexivity.
     - reflexivity.
   Qed.
@@ -967,22 +977,44 @@ Section Template.
     unfold mtpl in *. cbn [map migrate_template migrate_seg]. rewrite IH. reflexivity.
   Qed.
 
+  (* separateFrom either leaves the wrapped expression alone or turns @x into @(x) *)
+  Lemma separate_from_cases w f :
+    sep w f = w \/ sep w f = 64 :: 40 :: tl w ++ [41].
+  Proof.
+    unfold sep, separate_from. destruct (negb separates_identifiers); [left; reflexivity|].
+    destruct f as [|c r]; [left; reflexivity|].
+    destruct (is_prefix [64; 40] w); [left; reflexivity|].
+    destruct (ExScanner.scan isln lower_rune (Some run_top_levels) true (ExScanner.new_input (w ++ c :: r))) as [[[ty tok] i]| |];
+      try (right; reflexivity).
+    destruct ty; try (right; reflexivity).
+    destruct (text_eqb tok (tl w)); [left|right]; reflexivity.
+  Qed.
+
   (* an expression token that migrates (legacy parse ok, intended tree defined) becomes @( text ) where text
      re-parses to the intended tree; every expression of the output parses *)
-  Theorem expr_parses : forall s e t,
+  Theorem expr_parses : forall s e t following,
     default_to_self = false -> url_encode = false ->
     text_eqb s t_empty_literal = false ->
     parse1 s = Some e -> mt ctxmap raw_dates e = Some t ->
-    exists body, mseg (SExpr s) = (64 :: body, false) /\
+    exists body, mseg (SExpr s) following = (64 :: body, false) /\
       (body = print3 t \/ body = 40 :: print3 t ++ [41]) /\
       parse3 (print3 t) = Some t.
   Proof.
-    intros s e t Hd Hu Hne Hp Hm. unfold mseg, migrate_seg, migrate_expression.
+    intros s e t following Hd Hu Hne Hp Hm. unfold mseg, migrate_seg, migrate_expression.
     rewrite Hne, Hp, Hd, Hu. destruct (visit_mt ctxmap raw_dates e t Hm) as [Pv [W L]].
     rewrite Pv. unfold wrap_raw.
     destruct (is_valid_identifier (print3 t)).
-    - eexists. split; [reflexivity|]. split; [left; reflexivity | apply parse3_print3; assumption].
-    - eexists. split; [reflexivity|]. split; [right; reflexivity | apply parse3_print3; assumption].
+    - destruct (separate_from_cases (64 :: print3 t) following) as [E|E]; fold sep; rewrite E.
+      + eexists. split; [reflexivity|]. split; [left; reflexivity | apply parse3_print3; assumption].
+      + eexists. split; [reflexivity|]. split; [right; reflexivity | apply parse3_print3; assumption].
+    - destruct (separate_from_cases (64 :: 40 :: print3 t ++ [41]) following) as [E|E]; fold sep; rewrite E.
+      + eexists. split; [reflexivity|]. split; [right; reflexivity | apply parse3_print3; assumption].
+      + exfalso. revert E. unfold sep, separate_from. destruct (negb separates_identifiers).
+        * intros E. apply (f_equal (@length N)) in E. cbn in E. rewrite !app_length in E. cbn in E. lia.
+        * destruct following as [|c r].
+          -- intros E. apply (f_equal (@length N)) in E. cbn in E. rewrite !app_length in E. cbn in E. lia.
+          -- cbn [is_prefix]. rewrite !N.eqb_refl. cbn [andb].
+             intros E. apply (f_equal (@length N)) in E. cbn in E. rewrite !app_length in E. cbn in E. lia.
   Qed.
 End Template.
 
